@@ -30,10 +30,34 @@ def boundary_props():
     return out
 
 
+class Conform5(cc.Dec5Part):
+    """valid v5 frames written by the independent spec encoder (all legal short forms, shuffled properties),
+    delivered whole: the crate must decode each to exactly the field values that were encoded (the expected dump
+    comes from the generator, not from the model)"""
+    expected = {}
+
+    def py_oracle(self, case, obs):
+        v = super().py_oracle(case, obs) if hasattr(super(), "py_oracle") else "1"
+        if not v.startswith("1"):
+            return v
+        want = self.expected.get(case)
+        if want is not None and obs != want:
+            return "0,12"
+        return "1"
+
+
+cc.DEC_CLAUSES["12"] = ("a valid frame written by the spec encoder does not decode to the field values that were "
+                        "encoded")
+
+
 def parts(tier, rng):
     n3 = cc.sized(tier, 60, 800)
     n5 = cc.sized(tier, 40, 500)
-    return [
+    ccases, cexp = G5.selfcheck(rng, n5 * 2)
+    conf = Conform5("v5-spec-conformance", "dec5", ccases, has_oracle=False,
+                    rule="single valid frames from the spec encoder with the expected field dump")
+    conf.expected = dict(zip(ccases, cexp))
+    return [conf,
         cc.Enc5Part("v5-encode-valid", "enc5", G5.enc5_valid(rng, n5 * 8), has_oracle=False),
         cc.Enc5Part("v5-property-length-boundaries", "enc5", boundary_props(), has_oracle=False,
                     rule="property blocks of 118..133 and 16374..16389 bytes (var-int width boundaries)"),
